@@ -6562,11 +6562,11 @@ size_t ZSTD_compress2(ZSTD_CCtx* cctx,
 }
 
 /* ZSTD_validateSequence() :
- * @offCode : is presumed to follow format required by ZSTD_storeSeq()
+ * @rawOffset : the offset as supplied by the caller (not yet converted into an offBase / repcode)
  * @returns a ZSTD error code if sequence is not valid
  */
 static size_t
-ZSTD_validateSequence(U32 offCode, U32 matchLength, U32 minMatch,
+ZSTD_validateSequence(U32 rawOffset, U32 matchLength, U32 minMatch,
                       size_t posInSrc, U32 windowLog, size_t dictSize, int useSequenceProducer)
 {
     U32 const windowSize = 1u << windowLog;
@@ -6577,7 +6577,8 @@ ZSTD_validateSequence(U32 offCode, U32 matchLength, U32 minMatch,
      */
     size_t const offsetBound = posInSrc > windowSize ? (size_t)windowSize : posInSrc + (size_t)dictSize;
     size_t const matchLenLowerBound = (minMatch == 3 || useSequenceProducer) ? 3 : 4;
-    RETURN_ERROR_IF(offCode > OFFSET_TO_OFFBASE(offsetBound), externalSequences_invalid, "Offset too large!");
+    /* compared as an offset, in size_t : OFFSET_TO_OFFBASE() wraps in 32 bits for offsets close to 4 GB */
+    RETURN_ERROR_IF(rawOffset == 0 || (size_t)rawOffset > offsetBound, externalSequences_invalid, "Offset is zero or too large!");
     /* Validate maxNbSeq is large enough for the given matchLength and minMatch */
     RETURN_ERROR_IF(matchLength < matchLenLowerBound, externalSequences_invalid, "Matchlength too small for the minMatch");
     return 0;
@@ -6625,6 +6626,16 @@ ZSTD_copySequencesToSeqStoreExplicitBlockDelim(ZSTD_CCtx* cctx,
         U32 const matchLength = inSeqs[idx].matchLength;
         U32 offBase;
 
+        if (cctx->appliedParams.validateSequences) {
+            seqPos->posInSrc += litLength;   /* the offset may only reach what is decoded when the match starts */
+            /* validate the offset as supplied, before it is converted : a repcode would escape the bound,
+             * and an offset close to 4 GB wraps in the conversion */
+            FORWARD_IF_ERROR(ZSTD_validateSequence(inSeqs[idx].offset, matchLength, cctx->appliedParams.cParams.minMatch, seqPos->posInSrc,
+                                                cctx->appliedParams.cParams.windowLog, dictSize, ZSTD_hasExtSeqProd(&cctx->appliedParams)),
+                                                "Sequence validation failed");
+            seqPos->posInSrc += matchLength;
+        }
+
         if (externalRepSearch == ZSTD_ps_disable) {
             offBase = OFFSET_TO_OFFBASE(inSeqs[idx].offset);
         } else {
@@ -6634,14 +6645,6 @@ ZSTD_copySequencesToSeqStoreExplicitBlockDelim(ZSTD_CCtx* cctx,
         }
 
         DEBUGLOG(6, "Storing sequence: (of: %u, ml: %u, ll: %u)", offBase, matchLength, litLength);
-        if (cctx->appliedParams.validateSequences) {
-            seqPos->posInSrc += litLength;   /* the offset may only reach what is decoded when the match starts */
-            /* validate the offset as supplied : once folded into a repcode it would escape the bound */
-            FORWARD_IF_ERROR(ZSTD_validateSequence(OFFSET_TO_OFFBASE(inSeqs[idx].offset), matchLength, cctx->appliedParams.cParams.minMatch, seqPos->posInSrc,
-                                                cctx->appliedParams.cParams.windowLog, dictSize, ZSTD_hasExtSeqProd(&cctx->appliedParams)),
-                                                "Sequence validation failed");
-            seqPos->posInSrc += matchLength;
-        }
         RETURN_ERROR_IF(idx - seqPos->idx >= cctx->seqStore.maxNbSeq, externalSequences_invalid,
                         "Not enough memory allocated. Try adjusting ZSTD_c_minMatch.");
         ZSTD_storeSeq(&cctx->seqStore, litLength, ip, iend, offBase, matchLength);
@@ -6764,19 +6767,19 @@ ZSTD_copySequencesToSeqStoreNoBlockDelim(ZSTD_CCtx* cctx, ZSTD_sequencePosition*
                 break;
             }
         }
+        if (cctx->appliedParams.validateSequences) {
+            seqPos->posInSrc += litLength;   /* the offset may only reach what is decoded when the match starts */
+            /* validate the offset as supplied, before it is converted : a repcode would escape the bound,
+             * and an offset close to 4 GB wraps in the conversion */
+            FORWARD_IF_ERROR(ZSTD_validateSequence(rawOffset, matchLength, cctx->appliedParams.cParams.minMatch, seqPos->posInSrc,
+                                                   cctx->appliedParams.cParams.windowLog, dictSize, ZSTD_hasExtSeqProd(&cctx->appliedParams)),
+                                                   "Sequence validation failed");
+            seqPos->posInSrc += matchLength;
+        }
         /* Check if this offset can be represented with a repcode */
         {   U32 const ll0 = (litLength == 0);
             offBase = ZSTD_finalizeOffBase(rawOffset, updatedRepcodes.rep, ll0);
             ZSTD_updateRep(updatedRepcodes.rep, offBase, ll0);
-        }
-
-        if (cctx->appliedParams.validateSequences) {
-            seqPos->posInSrc += litLength;   /* the offset may only reach what is decoded when the match starts */
-            /* validate the offset as supplied : once folded into a repcode it would escape the bound */
-            FORWARD_IF_ERROR(ZSTD_validateSequence(OFFSET_TO_OFFBASE(rawOffset), matchLength, cctx->appliedParams.cParams.minMatch, seqPos->posInSrc,
-                                                   cctx->appliedParams.cParams.windowLog, dictSize, ZSTD_hasExtSeqProd(&cctx->appliedParams)),
-                                                   "Sequence validation failed");
-            seqPos->posInSrc += matchLength;
         }
         DEBUGLOG(6, "Storing sequence: (of: %u, ml: %u, ll: %u)", offBase, matchLength, litLength);
         RETURN_ERROR_IF(idx - seqPos->idx >= cctx->seqStore.maxNbSeq, externalSequences_invalid,
